@@ -355,12 +355,14 @@ Theorem C17_pinned_drops_ordered_form :
     values_of (bs "z") (parse_form b) = [] /\
     exists b', form_plan_of [] cf ord = FBody b' /\ values_of (bs "z") (parse_form b') = [bs "1"].
 Proof. exact pinned_drops_ordered_form. Qed.
+Print Assumptions C17_pinned_drops_ordered_form.
 
 Theorem C17_pinned_drops_client_form_in_multipart :
   exists q, q_multipart q = true /\ lookup (bs "b") (q_cform q) = [bs "x"] /\
     values_of (bs "b") (multipart_fields_pinned q) = [] /\
     values_of (bs "b") (multipart_fields q) = [bs "x"].
 Proof. exact pinned_drops_client_form_in_multipart. Qed.
+Print Assumptions C17_pinned_drops_client_form_in_multipart.
 
 (* ------------------------------------------------------------------ non-vacuity *)
 
